@@ -1092,7 +1092,10 @@ class LongItmdVariants(dict):
 
             is_new_remainder = False
             # possibly we got another -1 from matching the remainder
+            # (also relevant for the prefactor the term needs to factor the
+            #  intermediate with a prefactor of 1)
             prefactor *= factor
+            unit_factorization_pref *= factor
 
             # next, we can separate them according to the itmd_positions
             # so we can later build intermediate variants more efficient
